@@ -278,7 +278,7 @@ func rngGetWorld() *rngWorld {
 // channel receive inside runSizeLimiter. Bounded; happens once per process.
 func rngWaitLimiterIdle() {
 	buf := make([]byte, 1<<18)
-	deadline := time.Now().Add(2 * time.Second)
+	deadline := time.Now().Add(10 * time.Second)
 	for time.Now().Before(deadline) {
 		n := runtime.Stack(buf, true)
 		for _, g := range strings.Split(string(buf[:n]), "\n\n") {
